@@ -63,12 +63,13 @@ theorem wrap_eq_greedy_full (w : Nat) (parts : List Part) (hw : 1 ≤ w)
 example : (1 ≤ 3) ∧ (∀ wd ∈ words (partsText [.text [] [] (strCh "aaa b"), .frag (strCh "id"),
     .text [Ann.em] [Ann.em] (strCh "b  ccc"), .text [] [] (strCh "ccc d")]), 0 < lwc wd) := by decide +kernel
 
-/-- the positive-width hypothesis is necessary: a word consisting of a zero-width character is not flushed at the
-    space that follows it, so it runs into the next word (the reference keeps them apart) -/
-theorem zero_width_word_differs :
+/-- a word consisting of a zero-width character is a word like any other: it is flushed at the space that follows it and
+    does not run into the next word (before fix "flush a pending word that has no width" it did: the flush was guarded by
+    `wordlen > 0`, and this statement was false — the machine gave `a ​b` with the second space lost) -/
+theorem zero_width_word_kept_apart :
     let zw : Ch := ⟨0x200b, 0, false, false⟩
     let text := [mkCh 97, spaceCh, zw, spaceCh, mkCh 98]
-    (wrapParts 10 [.text [] [] text]).toOption = some [[mkCh 97, spaceCh, zw, mkCh 98]] ∧
+    (wrapParts 10 [.text [] [] text]).toOption = some [[mkCh 97, spaceCh, zw, spaceCh, mkCh 98]] ∧
     (greedy 10 (words text)).toOption = some [[mkCh 97, spaceCh, zw, spaceCh, mkCh 98]] := by decide +kernel
 
 /-! ## width 0 -/
@@ -148,12 +149,12 @@ theorem lines_fit (b : WB) (ls : List TLine) (hi : b.Inv) (ho : b.overflow = fal
 
 /-- whitespace runs collapse to one pending space, whichever whitespace characters they consist of -/
 theorem ws_run_collapses (b b1 : WB) (mt wt : Tag) (cur cur1 : Bool) (c1 c2 : Ch) (h1 : c1.ws = true) (h2 : c2.ws = true)
-    (hw : b.wordlen = 0) (hstep : b.addChar .normal mt wt cur c1 = .ok (b1, cur1)) :
+    (hw : b.word.noContent = true) (hstep : b.addChar .normal mt wt cur c1 = .ok (b1, cur1)) :
     b1.addChar .normal mt wt cur1 c2 = .ok (b1, cur1) :=
   C13.second_ws_noop b b1 mt wt cur cur1 c1 c2 h1 h2 hw hstep
 
 /-- no line begins with a space: whitespace met at the start of a line is dropped -/
-theorem no_leading_space (b : WB) (mt wt : Tag) (cur : Bool) (c : Ch) (hc : c.ws = true) (hw : b.wordlen = 0)
+theorem no_leading_space (b : WB) (mt wt : Tag) (cur : Bool) (c : Ch) (hc : c.ws = true) (hw : b.word.noContent = true)
     (hl : b.linelen = 0) : b.addChar .normal mt wt cur c = .ok (b, cur) :=
   C13.leading_ws_dropped b mt wt cur c hc hw hl
 
